@@ -150,3 +150,67 @@ Example C15_example :
   mnth (b_rows CS) 0 2 = NaN /\
   mnth (b_base CS) 1 2 =x= Fin 1.
 Proof. vm_compute. repeat split; reflexivity. Qed.
+
+(* ------------------------------------------------------------------------------------ *)
+(* UNDER DISPLAY TRANSFORMS (hide / explicit order / prune).  The partition selects and
+   reorders the blocks above with one signed order vector per dimension (Model/Assemble.v:
+   np.concatenate(blocks)[order], np.block(blocks)[np.ix_(rows, cols)]; an index >= 0 is a base
+   element, < 0 an inserted subtotal).  [order] / [ro] / [co] are ARBITRARY: whichever base
+   elements they leave out (hidden, pruned), a displayed cell is still its sum divided by the
+   total over ALL base rows / columns of the table, and a displayed subtotal still adds the
+   shares of ALL its addends. *)
+From CC Require Import Model.Assemble Proofs.ShareDisplay.
+
+Theorem C15_strand_share_displayed_base sums subs order k :
+  k < length order ->
+  (0 <= nth k order 0 < Z.of_nat (length sums))%Z ->
+  nth k (strand_share_displayed sums subs order) NaN
+  = xdiv (vnth sums (Z.to_nat (nth k order 0%Z))) (nansum sums).
+Proof. exact (strand_share_displayed_base sums subs order k). Qed.
+Print Assumptions C15_strand_share_displayed_base.
+
+Theorem C15_strand_share_displayed_subtotal sums subs order k :
+  k < length order ->
+  (- Z.of_nat (length subs) <= nth k order 0 < 0)%Z ->
+  nth k (strand_share_displayed sums subs order) NaN
+  = stripe_sum_subtotal (stripe_share_base sums)
+      (nth (Z.to_nat (nth k order 0%Z + Z.of_nat (length subs))) subs (mkSub [] [])).
+Proof. exact (strand_share_displayed_subtotal sums subs order k). Qed.
+Print Assumptions C15_strand_share_displayed_subtotal.
+
+Theorem C15_slice_share_displayed_base sums nr nc rsubs csubs ro co k l :
+  k < length ro -> l < length co ->
+  (0 <= nth k ro 0 < Z.of_nat nr)%Z -> (0 <= nth l co 0 < Z.of_nat nc)%Z ->
+  let i := Z.to_nat (nth k ro 0%Z) in
+  let j := Z.to_nat (nth l co 0%Z) in
+  let shown B := slice_share_displayed nr (length rsubs) nc (length csubs) B ro co in
+  gnth NaN (shown (col_share sums nr nc rsubs csubs)) k l
+    = xdiv (mnth sums i j) (col_total sums nr j)
+  /\ gnth NaN (shown (row_share sums nr nc rsubs csubs)) k l
+    = xdiv (mnth sums i j) (row_total sums nc i)
+  /\ gnth NaN (shown (total_share sums nr nc rsubs csubs)) k l
+    = xdiv (mnth sums i j) (table_total sums nr nc).
+Proof. exact (slice_share_displayed_base sums nr nc rsubs csubs ro co k l). Qed.
+Print Assumptions C15_slice_share_displayed_base.
+
+Theorem C15_slice_col_share_displayed_subtotal_row sums nr nc rsubs csubs ro co k l :
+  k < length ro -> l < length co ->
+  (- Z.of_nat (length rsubs) <= nth k ro 0 < 0)%Z -> (0 <= nth l co 0 < Z.of_nat nc)%Z ->
+  let s := Z.to_nat (nth k ro 0%Z + Z.of_nat (length rsubs)) in
+  let j := Z.to_nat (nth l co 0%Z) in
+  gnth NaN (slice_share_displayed nr (length rsubs) nc (length csubs)
+              (col_share sums nr nc rsubs csubs) ro co) k l
+    = xdiv (mnth (Subtotals.b_rows (sb sums nr nc rsubs csubs)) s j) (col_total sums nr j).
+Proof. exact (slice_col_share_displayed_subtotal_row sums nr nc rsubs csubs ro co k l). Qed.
+Print Assumptions C15_slice_col_share_displayed_subtotal_row.
+
+(* non-vacuity: strand with sums 10 20 30 40, subtotals {0,1} (top) and {2,3} (bottom), the row
+   with sum 30 hidden (order -2 0 1 3 -1): the shares are still over 100 - 3/10 1/10 1/5 2/5
+   7/10 - so the displayed base rows add up to 7/10, not 1, and the bottom subtotal still
+   counts its hidden addend. *)
+Example C15_displayed_example :
+  let sums := [Fin 10; Fin 20; Fin 30; Fin 40] in
+  let subs := [mkSub [0; 1] []; mkSub [2; 3] []] in
+  Forall2 xeq (strand_share_displayed sums subs [(-2)%Z; 0%Z; 1%Z; 3%Z; (-1)%Z])
+              [Fin (3 # 10); Fin (1 # 10); Fin (1 # 5); Fin (2 # 5); Fin (7 # 10)].
+Proof. vm_compute. repeat constructor. Qed.
